@@ -68,6 +68,9 @@ type World struct {
 	AddrErr  map[string]error
 	Routes   []netlink.Route
 	RouteErr error
+	// RealKernel: answer the net / netlink questions from the real kernel (the calling thread's network
+	// namespace) instead of the tables above: conformance runs of the host-configuration checks
+	RealKernel bool
 
 	Written  []Frame
 	Opened   []string
@@ -107,6 +110,10 @@ func NewTPacket(opts ...interface{}) (*TPacket, error) {
 		if i.Name == t.iface {
 			found = true
 		}
+	}
+	if W.RealKernel {
+		_, err := net.InterfaceByName(t.iface)
+		found = err == nil
 	}
 	if !found {
 		return nil, errors.New("bind: no such device " + t.iface)
@@ -234,11 +241,17 @@ func OpenSockets() []*TPacket {
 
 // ---- net / netlink ----
 func Interfaces() ([]net.Interface, error) {
+	if W.RealKernel {
+		return net.Interfaces()
+	}
 	out := make([]net.Interface, len(W.Ifaces))
 	copy(out, W.Ifaces)
 	return out, nil
 }
 func InterfaceByName(name string) (*net.Interface, error) {
+	if W.RealKernel {
+		return net.InterfaceByName(name)
+	}
 	for i := range W.Ifaces {
 		if W.Ifaces[i].Name == name {
 			c := W.Ifaces[i]
@@ -248,6 +261,9 @@ func InterfaceByName(name string) (*net.Interface, error) {
 	return nil, &net.OpError{Op: "route", Net: "ip+net", Err: errors.New("no such network interface")}
 }
 func InterfaceByIndex(idx int) (*net.Interface, error) {
+	if W.RealKernel {
+		return net.InterfaceByIndex(idx)
+	}
 	for i := range W.Ifaces {
 		if W.Ifaces[i].Index == idx {
 			c := W.Ifaces[i]
@@ -257,12 +273,18 @@ func InterfaceByIndex(idx int) (*net.Interface, error) {
 	return nil, &net.OpError{Op: "route", Net: "ip+net", Err: errors.New("no such network interface")}
 }
 func Addrs(i *net.Interface) ([]net.Addr, error) {
+	if W.RealKernel {
+		return i.Addrs()
+	}
 	if err := W.AddrErr[i.Name]; err != nil {
 		return nil, err
 	}
 	return W.Addrs[i.Name], nil
 }
 func RouteList(link netlink.Link, family int) ([]netlink.Route, error) {
+	if W.RealKernel {
+		return netlink.RouteList(link, family)
+	}
 	return W.Routes, W.RouteErr
 }
 
